@@ -54,12 +54,14 @@ pub fn run(env: &mut Env) -> Outcome {
         }
         let (sub, lenient) = {
             let mut ctx = ctxrc.borrow_mut();
-            let sub = match ctx.choose("sub_kind", 8) {
+            let repeat = if !accepted.is_empty() && ctx.chance("repeat_earlier", 1, 4) { Some(accepted[accepted.len() - 1 - ctx.choose("repeat_which", accepted.len().min(4) as u64) as usize].clone()) } else { None };
+            if repeat.is_some() { ctx.probe("repeated_submission"); }
+            let sub = if let Some(r) = repeat { r } else { match ctx.choose("sub_kind", 8) {
                 0 | 1 | 2 => Sub::Pointer { x: ctx.u16_boundary("ptr_x"), y: ctx.u16_boundary("ptr_y"), button: ctx.choose("button", 4) as u8, down: ctx.chance("down", 1, 2) },
                 3 | 4 | 5 => Sub::Key { code: ctx.u16_boundary("key_code"), down: ctx.chance("down", 1, 2) },
                 6 => Sub::Key { code: ctx.choose("key_code_any", 65536) as u16, down: ctx.chance("down", 1, 2) },
                 _ => Sub::Unsendable,
-            };
+            } };
             (sub, ctx.chance("try_write", 1, 2))
         };
         let ev = match &sub {
